@@ -28,6 +28,11 @@ def eval_call(ex, e, st):
         from . import specfn
         if f.id in specfn.SPEC_FUNCS:
             return [(st, specfn.SPEC_FUNCS[f.id](ex, st, e))]
+        if f.id in ex.S.macros:
+            lam = ast.parse(ex.S.macros[f.id].strip(), mode="eval").body
+            args = [ex.ev1(a, st) for a in e.args]
+            fh = FnHint(lam, dict(st.env))
+            return [(st, apply_lambda(ex, st, fh, args, e))]
         if f.id in ex.S.ghost:
             o = ex.ev1(e.args[0], st)
             o = ex.as_ref(o, st, e)
@@ -113,6 +118,7 @@ def method_call(ex, st, recv, name, pos, kw, node):
             s = recv.t
             x = ex.to_val(pos[0])
             ex.oblige(st, "def", "index-element-present", node, Contains(s, x))
+            st.assume(smt.index_fact(s, x))
             return [(st, SV("int", IndexOf(s, x), T("int")))]
         raise Unsupported("method on seq: " + name, node)
     if recv.k == "ref" and h is not None and h.kind == "dict":
@@ -145,20 +151,20 @@ def list_method(ex, st, l, name, pos, kw, node):
         x = elem(pos[0])
         if l.h.name == "Local" and not l.h.args and pos[0].h is not None:
             l.h.args = [pos[0].h]
-        st.assume(z3.Or(Contains(s, x), z3.Not(Contains(s, x))))
         ex.heap_set(st, "$seq", z3.Store(seq, l.t, Append1(s, x)), hint=l.h, fresh_obj=l.fresh)
         ex.on_event(st, "append", l, pos[0], node)
         return [(st, SV("val", Val.none, T("none")))]
     if name == "remove":
         x = ex.to_val(pos[0])
         ex.oblige(st, "def", "remove-element-present", node, Contains(s, x))
-        st.assume(z3.Or(Contains(s, x), z3.Not(Contains(s, x))))
+        st.assume(smt.index_fact(s, x))
         ex.heap_set(st, "$seq", z3.Store(seq, l.t, RemoveAt(s, IndexOf(s, x))), hint=l.h, fresh_obj=l.fresh)
         ex.on_event(st, "remove", l, pos[0], node)
         return [(st, SV("val", Val.none, T("none")))]
     if name == "index":
         x = ex.to_val(pos[0])
         ex.oblige(st, "def", "index-element-present", node, Contains(s, x))
+        st.assume(smt.index_fact(s, x))
         return [(st, SV("int", IndexOf(s, x), T("int")))]
     if name == "pop":
         if pos:
@@ -266,6 +272,12 @@ def call_value(ex, st, fv, pos, kw, node):
         s2 = st
         r = apply_lambda(ex, s2, fv.h, pos, node)
         return [(s2, r)]
+    if fv.h is not None and fv.h.kind == "fnconst":
+        name = fv.h.name
+        if name in ex.P.classes:
+            return construct(ex, st, name, pos, kw, node)
+        if name in ex.P.functions:
+            return call_function(ex, st, ex.P.functions[name], None, pos, kw, node)
     model = ex.S.externals.get("$fnvalue")
     if model is None:
         raise Unsupported("call through a function value", node)
@@ -296,6 +308,9 @@ def construct(ex, st, clsname, pos, kw, node):
     c = ex.S.contracts.get(key)
     fi = ex.P.lookup(clsname, "__init__")
     r = ex.alloc(st, clsname)
+    oa = getattr(ex.S, "on_alloc", None)
+    if oa:
+        oa(ex, st, clsname, r)
     o = SV("ref", r, Ty("obj", classes=[clsname]))
     o.exactcls = clsname
     if fi is None:
@@ -509,6 +524,20 @@ def parse_modifies(ex, st, env, entries):
 
 
 def apply_contract(ex, st, fi, c, env, node):
+    if c.cases:
+        # behaviours: exactly the cases whose guard can hold are explored; the guards must cover
+        whens = []
+        outs = []
+        for cs in c.cases:
+            s2 = st.copy()
+            g = spec_eval(ex, s2, dict(env), cs.when)
+            whens.append(spec_eval(ex, st, dict(env), cs.when))
+            if not ex.noprune and not ex.feasible(s2, g):
+                continue
+            s2.assume(g)
+            outs.extend(apply_contract(ex, s2, fi, cs, dict(env), node))
+        ex.oblige(st, "pre-call", f"{c.target}:some-case-applies", node, z3.Or(whens))
+        return outs
     if c.assumed:
         ex.assumed_used.add(c.target)
     # parameter typing from the contract
@@ -534,7 +563,8 @@ def apply_contract(ex, st, fi, c, env, node):
         for hn, preds in mods.items():
             havoc_heap(ex, st, hn, preds, ovar, alive0)
     if c.allocates or star:
-        a_old, a_new = ex.fresh_heap(st, "$alive")
+        a_old = ex.named_heap(st, "$alive")
+        _, a_new = ex.fresh_heap(st, "$alive")
         o = z3.Int(f"o!{next(_uid)}")
         st.assume(smt.forall([o], z3.Implies(a_old[o], a_new[o]), patterns=[a_old[o]]))
         st.assume(smt.forall([o], z3.Implies(a_old[o], a_new[o]), patterns=[a_new[o]]))
